@@ -478,9 +478,11 @@ def oracle(case, obs):
                 return Failure(case, where + f"framing {g['framing']}, chunked expected={chunked_exp}", tag_for(i, "framing"))
         if g["trailers"]:
             return Failure(case, where + "unexpected trailers", tag_for(i, "trailers"))
-    # second independent parser: h11, where its (stricter) value grammar admits what was set
+    # second independent parser: h11, where its (stricter) value grammar admits what was set (and the application
+    # did not itself announce "Connection: close" on a connection the server keeps open: h11 would stop there)
     usable = all(_h11_ok(_sanitised(v)) for e in exps for vs in e["headers"].values() for v in vs) and \
         all(e["reason"] is None or _h11_ok(_sanitised(e["reason"])) for e in exps) and \
+        not any(b"close" in v.lower() for e in exps[:n - 1] for v in e["headers"].get(b"connection", [])) and \
         all(re.fullmatch(rb"[0-9]+", v) if k.lower() == b"content-length" else
             (v.lower() == b"chunked") if k.lower() == b"transfer-encoding" else True
             for g in got for k, v in g["headers"])
@@ -675,7 +677,7 @@ def _request(rng, tier, last):
 
 def gen(rng, tier):
     cases = []
-    n = 450 if tier == "quick" else 12000
+    n = 450 if tier == "quick" else 3000
     for _ in range(n):
         k = rng.choice([1, 1, 1, 2, 2, 3])
         reqs = [_request(rng, tier, i == k - 1) for i in range(k)]
@@ -718,6 +720,10 @@ def gen(rng, tier):
 
 
 def corpus():
+    # import the code under test (and h11) outside the per-case time limit (slow on a busy machine)
+    import h11  # noqa: F401
+    import twisted.internet.testing  # noqa: F401
+    import twisted.web.http  # noqa: F401
     a = {x: None for x in ATTRS}
     w = lambda b: ["write", b.hex()]
     one = lambda ops, **kw: {"split": False, "reqs": [dict({"v11": True, "head": False, "close": False, "ops": ops}, **kw)]}
@@ -769,7 +775,7 @@ SPEC = Spec(
     coq_fn="run_show2",
     to_coq=to_coq, model_equal=model_equal,
     nontrivial=lambda c, o: len(o) > 40 and not o.endswith("#ERR"),
-    rule="450 (quick) / 12000 (thorough) random connections of 1-3 pipelined requests (HTTP/1.0|1.1 x GET|HEAD x "
+    rule="450 (quick) / 3000 (thorough) random connections of 1-3 pipelined requests (HTTP/1.0|1.1 x GET|HEAD x "
          "Connection: close), each a script of setResponseCode / setRawHeaders / setHeader / addRawHeader / removeHeader / "
          "addCookie / write calls with names and values over bytes 0-255 and str code points (incl. > 255, surrogates), "
          "CR/LF/CRLF placed in every sanitised position, body sizes at 0,1,15,16,17,255,256,257 (thorough also 4095-4097), "
